@@ -28,7 +28,14 @@ PYFORMS = {
     "lambda_kw": "(lambda **kw: %s)()",
     "lambda_kwonly": "(lambda *, n=1: %s)()",
     "lambda_pos": "(lambda a, /, n=2: %s)(0)",
-    "listcomp": "[%s for a in (1,)][0]",
+    "listcomp": "[%s for z in (1,)][0]",
+    # comprehensions whose outermost iterable is the template variable that
+    # has the loop variable's name (it is evaluated outside the
+    # comprehension's own scope)
+    "listcomp_self": "[(a, %s)[1] for a in a][0]",
+    "genexp_self": "(sorted(n for n in (n,)) and %s)",
+    "dictcomp_self": "{kw: %s for kw in (kw,)}[kw]",
+    "setcomp_self": "({a for a in a} and %s)",
     "uses_a": "(a, %s)[1]",
     "uses_kw": "(kw, %s)[1]",
     "uses_n": "(n, %s)[1]",
@@ -578,7 +585,8 @@ _ENT = _re.compile(r"&#?\w+;")
 class Ser:
     """Tree -> source text, recording every expression occurrence."""
 
-    def __init__(self, pretty: bool = False) -> None:
+    def __init__(self, pretty: bool = False, seps: bool = False) -> None:
+        self.seps = seps                # unusual line separators in text
         self.buf: list[str] = []
         self.pos = 0
         self.occ: list[dict] = []       # expression occurrences
@@ -779,7 +787,12 @@ class Ser:
         for c in n["children"]:
             if self.pretty:
                 self.w("\n" + "  " * self.depth)
-                if c["t"] == "text" and self.depth % 2:
+                if self.seps:
+                    # characters str.splitlines() breaks at, but which do
+                    # not end a line of the template: form feed, file /
+                    # group separators, NEL, LINE / PARAGRAPH SEPARATOR
+                    self.w("\u00e9\x0c\u2028\x1c\x85\u2029\u00df ")
+                elif c["t"] == "text" and self.depth % 2:
                     self.w("\u00e9\u00df ")
             self.node(c)
         self.depth -= 1
@@ -813,8 +826,8 @@ class Ser:
 
 
 def serialise(tree: dict, pretty: bool = False,
-              fname: str | None = None) -> tuple[str, list]:
-    s = Ser(pretty)
+              fname: str | None = None, seps: bool = False) -> tuple[str, list]:
+    s = Ser(pretty, seps)
     src = s.source(tree)
     for o in s.occ:
         o["file"] = fname
